@@ -16,7 +16,7 @@ use sfs_core::{
 };
 
 use crate::{
-    cli::{run_sfs, run_sfs_piped, Scratch, Stdin},
+    cli::{run_sfs, run_sfs_piped, run_sfs_stdout_to, Scratch, Stdin},
     createmodel::{build_site_reader, run_reader, CreateResult},
     gen::{render, CallSet, Container, Layout},
     json::{hex, J},
@@ -523,6 +523,50 @@ pub fn run(tier: Tier) -> i32 {
         exhaustive: false,
         extra: vec![],
     });
+    // failing sinks at L2: a full device as stdout and as the -o target
+    {
+        let full = std::path::Path::new("/dev/full");
+        let vcf = render(&cs, Container::Vcf, &Layout::Single);
+        let small = crate::subject::text_of(&crate::refmodel::RefArray::from_fn(&[3, 4], |f, _| f as f64 + 1.0));
+        let big = crate::subject::text_of(&crate::refmodel::RefArray::from_fn(&[120, 120], |f, _| f as f64 + 0.5));
+        let mut fjobs: Vec<(Vec<&str>, Vec<u8>, &str)> = vec![
+            (vec!["create"], vcf.clone(), "create"),
+            (vec!["create", "-p", "1", "--precision", "9"], vcf.clone(), "create -p"),
+            (vec!["stat", "-s", "sum"], small.clone().into_bytes(), "stat"),
+        ];
+        for (name, inp) in [("small", &small), ("big", &big)] {
+            let _ = name;
+            fjobs.push((vec!["view"], inp.clone().into_bytes(), "view text"));
+            fjobs.push((vec!["view", "-O", "npy"], inp.clone().into_bytes(), "view npy"));
+            fjobs.push((vec!["fold"], inp.clone().into_bytes(), "fold"));
+            fjobs.push((vec!["view", "-o", "/dev/full"], inp.clone().into_bytes(), "view -o"));
+            fjobs.push((vec!["view", "-O", "npy", "-o", "/dev/full"], inp.clone().into_bytes(), "view npy -o"));
+        }
+        let res = par_map(fjobs.len(), |i| {
+            let (args, inp, what) = &fjobs[i];
+            let o = if args.contains(&"-o") { run_sfs(args, Stdin::Bytes(inp), &scratch) } else { run_sfs_stdout_to(args, inp, full, &scratch) };
+            if o.diagnosed_error() {
+                None
+            } else {
+                Some((
+                    format!("C18|cli|write-failure-not-reported|{what}"),
+                    format!("sfs {args:?} writing {} bytes of input's result to a full device: {} stderr {:?}", inp.len(), o.status_str(), o.stderr_str().trim()),
+                    J::obj([("kind", J::s("c18-full")), ("argv", J::strs(args)), ("stdin_hex", J::s(crate::json::hex(inp)))]),
+                ))
+            }
+        });
+        for v in res.into_iter().flatten() {
+            rep.violation(v.0, v.1, v.2);
+        }
+        rep.part(Part {
+            name: "cli: output onto a full device".into(),
+            evaluations: fjobs.len() as u64,
+            nontrivial: fjobs.len() as u64,
+            note: "create / view (text, npy) / fold / stat with stdout = /dev/full and with -o /dev/full, small and >64 KiB outputs: every write fails with ENOSPC, so the run must end in a diagnosed error".into(),
+            exhaustive: true,
+            extra: vec![],
+        });
+    }
     rep.exhaustive = true; // the deciding L1 enumeration is complete; the pipe part is confirmation only
     rep.assumptions = vec![
         "read-side observation uses a replica of the 10-line CLI runner loop over the real site::Reader".into(),
@@ -562,6 +606,14 @@ pub fn replay(case: &J) -> Option<Vec<String>> {
             let format = if case.get("format")?.as_str()? == "npy" { Format::Npy } else { Format::Text };
             let p = case.get("precision")?.as_i64()? as usize;
             Some(eval_write(si, format, p).1.into_iter().map(|(k, w, _)| format!("{k} :: {w}")).collect())
+        }
+        "c18-full" => {
+            let inp = crate::json::unhex(case.get("stdin_hex")?.as_str()?)?;
+            let args: Vec<String> = case.get("argv")?.as_arr()?.iter().filter_map(|a| a.as_str().map(|s| s.to_string())).collect();
+            let a: Vec<&str> = args.iter().map(|s| s.as_str()).collect();
+            let scratch = Scratch::new("c18r");
+            let o = if a.contains(&"-o") { run_sfs(&a, Stdin::Bytes(&inp), &scratch) } else { run_sfs_stdout_to(&a, &inp, std::path::Path::new("/dev/full"), &scratch) };
+            Some(if o.diagnosed_error() { vec![] } else { vec![format!("C18|cli|write-failure-not-reported :: {a:?}: {} {:?}", o.status_str(), o.stderr_str())] })
         }
         "c18-pipe" => {
             let bytes = crate::json::unhex(case.get("bytes_hex")?.as_str()?)?;
